@@ -369,12 +369,23 @@ Qed.
 
 (* ======== the chain of optional parts with arbitrary spacing ======== *)
 Definition nonsp (p : list N) : bool := match p with c :: _ => negb (c =? 32) | [] => false end.
-Definition follows (F : list (list N)) (s : list N) : Prop := exists n p r, In p F /\ s = sp n ++ p ++ r.
+(* what comes next: some spaces, then one of the listed beginnings; no space at all only before the closing parenthesis *)
+Definition closes (p : list N) : bool := match p with c :: _ => c =? 41 | [] => false end.
+Definition follows (F : list (list N)) (s : list N) : Prop :=
+  exists n p r, In p F /\ s = sp n ++ p ++ r /\ (n <> 0%nat \/ closes p = true).
 
 Lemma follows_skip p F s : follows F s -> follows (p :: F) s.
-Proof. intros (n & q & r & Hin & ->). exists n, q, r. split; [now right|reflexivity]. Qed.
-Lemma follows_here n p F r : follows (p :: F) (sp n ++ p ++ r).
-Proof. exists n, p, r. split; [now left|reflexivity]. Qed.
+Proof. intros (n & q & r & Hin & -> & Hn). exists n, q, r. split; [now right|split; [reflexivity|exact Hn]]. Qed.
+Lemma follows_here n p F r : follows (p :: F) (sp (S n) ++ p ++ r).
+Proof. exists (S n), p, r. split; [now left|split; [reflexivity|left; discriminate]]. Qed.
+Lemma follows_close n F r : follows ([41] :: F) (sp n ++ [41] ++ r).
+Proof. exists n, [41], r. split; [now left|split; [reflexivity|right; reflexivity]]. Qed.
+
+Lemma follows_first F s (C : N -> bool) : follows F s -> C 32 = false -> C 41 = false -> starts_not C s.
+Proof.
+  intros (n & p & r & _ & -> & Hn) H32 H41. destruct n as [|n]; [|exact H32].
+  destruct Hn as [Hn|Hn]; [congruence|]. destruct p as [|c p]; [discriminate|]. cbn in *. apply N.eqb_eq in Hn. subst c. exact H41.
+Qed.
 
 (* a literal fails after any number of spaces when the text that follows them is not the literal *)
 Lemma lit_after_spaces kw K j p r pp c k' :
@@ -395,7 +406,7 @@ Proof. destruct p as [|c p]; [discriminate|]. unfold nonsp, starts_not, is_sp. c
 
 Lemma follows_shape F s : follows F s -> forallb nonsp F = true -> exists n s', s = sp n ++ s' /\ starts_not is_sp s'.
 Proof.
-  intros (n & p & r & Hin & ->) H. rewrite forallb_forall in H. specialize (H p Hin). exists n, (p ++ r). split; [reflexivity|].
+  intros (n & p & r & Hin & -> & _) H. rewrite forallb_forall in H. specialize (H p Hin). exists n, (p ++ r). split; [reflexivity|].
   now apply nonsp_starts.
 Qed.
 
@@ -410,7 +421,7 @@ Proof.
   exists c'. split; [|split].
   - apply (only_touches_wider lo 200); [lia|lia|exact T'].
   - rewrite BT_cat. unfold optg. rewrite BT_opt_none; [exact E'|]. intros k'.
-    destruct (HF junk) as (n & p & r & Hin & E). rewrite E. rewrite BT_group. apply BT_SP_run_no.
+    destruct (HF junk) as (n & p & r & Hin & E & _). rewrite E. rewrite BT_group. apply BT_SP_run_no.
     + rewrite forallb_forall in Hns. specialize (Hns p Hin). now apply nonsp_starts.
     + intros j pp c k0 _. now apply HB.
   - intros Hf. split.
